@@ -98,8 +98,9 @@ func runC02(c *Ctx) {
 		e.Run()
 	}
 	runC02Long(c)
+	runBigCollection(c, "C02")
 	c.Meta(map[string]interface{}{
-		"rule":                  "(long indexes: every insertion sequence over a three-value domain of length 6 (thorough 8), 3 (4) configurations: after every insertion from the 4th on, after each in-place update of every object, after Close and Open, and after each deletion from the middle: every operator x probes {-1..3} on an indexed int, an indexed string and an unindexed field - Len, members, no duplicate, non-increasing order, the same as And-refinement of everything and as Or with nothing, AssignIndex, Count; two unions and a refinement built from one search; result sets of every size 1..40 reused for three unions and a refinement.) every state reached by BFS over the contents alphabet (ties, in-place updates, deletions, reloads, search-delete) is swept: every field path x every operator x every probe (stored values, neighbours, extremes, absent), 5 regex patterns per string field, all And/Or pairs over a 12-atom menu and depth-2 chains over a sub-menu; Len, Collect set and duplicates compared with a linear scan of the reference model; the handle state must be unchanged by queries. Non-trivial = states holding >= 2 objects.",
+		"rule":                  "(big collections: 150 and 300 (thorough up to 1100) objects: Count, All, AssignIndex and seven searches complete and exact, also after Close and Open.) (long indexes: every insertion sequence over a three-value domain of length 6 (thorough 8), 3 (4) configurations: after every insertion from the 4th on, after each in-place update of every object, after Close and Open, and after each deletion from the middle: every operator x probes {-1..3} on an indexed int, an indexed string and an unindexed field - Len, members, no duplicate, non-increasing order, the same as And-refinement of everything and as Or with nothing, AssignIndex, Count; two unions and a refinement built from one search; result sets of every size 1..40 reused for three unions and a refinement.) every state reached by BFS over the contents alphabet (ties, in-place updates, deletions, reloads, search-delete) is swept: every field path x every operator x every probe (stored values, neighbours, extremes, absent), 5 regex patterns per string field, all And/Or pairs over a 12-atom menu and depth-2 chains over a sub-menu; Len, Collect set and duplicates compared with a linear scan of the reference model; the handle state must be unchanged by queries. Non-trivial = states holding >= 2 objects.",
 		"query_trees_per_state": len(trees),
 		"configs":               cfgs,
 		"depth":                 depth,
